@@ -116,6 +116,10 @@ def run(tier: str) -> int:
     for k, (tag, text, p) in enumerate(gen.grid(seed() * 31 + 18, nb, resmodels=(4, 3, 4, 1), with_extras=True)):
         p = dict(p)
         p['Ramey Production Wellbore Model'] = 'True'
+        if int(p.get('End-Use Option', 1)) in gen.COGEN and k % 2 == 0:
+            # an explicit split of plant cost between the two products, with a tax credit: each product's levelised cost carries its share
+            p['CHP Electrical Plant Cost Allocation Ratio'] = gen.fmt(rng.choice([rng.uniform(0.05, 0.4), rng.uniform(0.4, 0.95)]))
+            p.setdefault('Investment Tax Credit Rate', gen.fmt(rng.uniform(0.1, 0.5)))
         nseg = int(p.get('Number of Segments', 1))
         # --- bottom-hole temperature vs one gradient (ladder kept on one side of the 1.0 unit heuristic) and vs depth
         gk = rng.randint(1, nseg)
